@@ -1,15 +1,18 @@
 import FlowRecord.Drive.Util
 import FlowRecord.Drive.C13
+import FlowRecord.Drive.C14
 import FlowRecord.Drive.C11
 import FlowRecord.Drive.Selector
 import FlowRecord.Drive.C06
 import FlowRecord.Drive.C15
+import FlowRecord.Drive.C12
 import FlowRecord.Drive.Wire
 import FlowRecord.Drive.C10
 import FlowRecord.Drive.C16
 import FlowRecord.Drive.C20
 import FlowRecord.Drive.C18
 import FlowRecord.Drive.C19
+import FlowRecord.Drive.C17
 /-!
 Line protocol of the model driver: one JSON object per input line (`{"op": ..., ...}`), one JSON object per
 output line. Handlers live in `FlowRecord/Drive/*.lean`; register each one in `handlers` below.
@@ -20,12 +23,15 @@ namespace FlowRecord.Driver
 open FlowRecord.Drive
 
 def handlers : List Handler := [
+  handleC17,
   handleC13,
+  handleC14,
   handleC18,
   handleC11,
   handleSelector,
   handleC06,
   handleC15,
+  handleC12,
   handleWire,
   handleC10,
   handleC16,
